@@ -164,7 +164,7 @@ def r_ledger(root):
             culprit = next((x for x in reversed(p) if x.ast is not None), None)
             out.append(Finding("C18", "C18.a", "textx/metamodel.py", q, " ".join(ast.unparse(culprit.ast).split())[:80], "an exception here (e.g. a model processor) leaves the models of this load cached in the repository", witness="global_repository=True, model processor raises"))
     # ---- O5 generated file
-    G = "textx/generators.py"; gf = find(load(root, G), "gen_file"); g3 = CFG(gf); inst += 1
+    G = "textx/generators.py"; gf = find_i(root, G, "gen_file"); g3 = CFG(gf); inst += 1
     cbn = [n for n in g3.nodes if n.kind == "stmt" and any(callee_name(c) == "gen_callback" for c in calls(n.ast))]
     if not cbn: raise AnalysisError("gen_callback call not found")
     removes = lambda n: n.ast is not None and n.kind in ("stmt", "with") and any((callee_name(c) in ("remove", "unlink")) for c in calls(n.ast))
